@@ -138,6 +138,11 @@ def try_branch(ex, st, info, args):
 @B.trait('FromResidual', 'from_residual')
 def from_residual(ex, st, info, args):
     v = args[0]
+    if not isinstance(v, Enum):
+        # `x?` on an Option inside a function returning Option: the residual is the constant None::<Infallible>
+        if type_key(info['selfty']) == 'Option':
+            return NONE
+        raise ExecError('from_residual on %r' % (v,))
     if v.ty == 'Result':
         e = v.f[0]
         # error conversion through From
